@@ -24,6 +24,12 @@ type c06Model struct {
 	refs   map[*ssa.Function][]ssa.Instruction
 	mayIns map[*ssa.Function]map[string]bool
 	mayDel map[*ssa.Function]map[string]bool
+	fnMemo map[ssa.Value]c06FnMemo
+}
+
+type c06FnMemo struct {
+	set c06FnSet
+	ok  bool
 }
 
 func c06NewModel(c *rt.Ctx, rel string) *c06Model {
@@ -130,8 +136,16 @@ func (m *c06Model) during(in ssa.Instruction) []*ssa.Function {
 		if _, isSig := a.Type().Underlying().(*types.Signature); !isSig {
 			continue
 		}
-		if f := m.funcOf(a); f != nil && m.inPkg(f) && f.Blocks != nil {
+		if f := m.argFn(a); f != nil && m.inPkg(f) && f.Blocks != nil {
 			out = append(out, f)
+		}
+		out = append(out, m.carried(a)...)
+	}
+	if !cc.IsInvoke() && len(out) == 0 || (!cc.IsInvoke() && m.funcOf(cc.Value) == nil) {
+		if _, isBuiltin := cc.Value.(*ssa.Builtin); !isBuiltin && m.funcOf(cc.Value) == nil {
+			if f := m.argFn(cc.Value); f != nil && m.inPkg(f) && f.Blocks != nil {
+				out = append(out, f) // a function value with a single possible target
+			}
 		}
 	}
 	return out
@@ -173,7 +187,7 @@ func (m *c06Model) inserts(fn *ssa.Function) map[string]bool {
 			changed = false
 			for _, f := range m.all {
 				for _, in := range an.Instrs(f, false) {
-					for _, g := range m.during(in) {
+					for _, g := range m.mayDuring(in) {
 						for k := range m.mayIns[g] {
 							if !m.mayIns[f][k] {
 								m.mayIns[f][k] = true
@@ -204,7 +218,7 @@ func (m *c06Model) deletes(fn *ssa.Function) map[string]bool {
 			changed = false
 			for _, f := range m.all {
 				for _, in := range an.Instrs(f, false) {
-					for _, g := range m.during(in) {
+					for _, g := range m.mayDuring(in) {
 						for k := range m.mayDel[g] {
 							if !m.mayDel[f][k] {
 								m.mayDel[f][k] = true
@@ -244,7 +258,7 @@ func (m *c06Model) insertSites(fn *ssa.Function) []ssa.Instruction {
 			}
 			continue
 		}
-		for _, g := range m.during(in) {
+		for _, g := range m.mayDuring(in) {
 			if len(m.inserts(g)) > 0 {
 				out = append(out, in)
 				break
@@ -530,7 +544,7 @@ func c06DependsOn(v, src ssa.Value) bool {
 		if v == src {
 			return true
 		}
-		if d > 14 || seen[v] {
+		if d > 48 || seen[v] {
 			return false
 		}
 		seen[v] = true
@@ -545,20 +559,33 @@ func c06DependsOn(v, src ssa.Value) bool {
 		}
 		// a local (its address, or a load of it) depends on what was stored into it
 		if al, ok := v.(*ssa.Alloc); ok {
-			for _, ref := range *al.Referrers() {
-				switch r := ref.(type) {
-				case *ssa.Store:
-					if r.Addr == ssa.Value(al) && walk(r.Val, d+1) {
-						return true
-					}
-				case *ssa.FieldAddr, *ssa.IndexAddr:
-					// composite literal: stores into the fields / elements of the local
-					for _, fr := range *r.(ssa.Value).Referrers() {
-						if st, ok := fr.(*ssa.Store); ok && st.Addr == r.(ssa.Value) && walk(st.Val, d+1) {
+			// everything stored into the local, its fields and elements (composite literals, tables of structs, arrays
+			// filled in a loop), at any nesting depth
+			var stored func(addr ssa.Value, n int) bool
+			stored = func(addr ssa.Value, n int) bool {
+				if n > 6 {
+					return false
+				}
+				for _, ref := range *addr.Referrers() {
+					switch r := ref.(type) {
+					case *ssa.Store:
+						if r.Addr == addr && walk(r.Val, d+1) {
+							return true
+						}
+					case *ssa.FieldAddr:
+						if r.X == addr && stored(r, n+1) {
+							return true
+						}
+					case *ssa.IndexAddr:
+						if r.X == addr && stored(r, n+1) {
 							return true
 						}
 					}
 				}
+				return false
+			}
+			if stored(al, 0) {
+				return true
 			}
 		}
 		return false
